@@ -202,10 +202,17 @@ theorem IsSuffix.len {r g : Bytes} (h : IsSuffix r g) : r.length ≤ g.length :=
 theorem isSuffix_drop_ge (file : Bytes) (pos p : Nat) (h : pos ≤ p) : IsSuffix (file.drop p) (file.drop pos) :=
   ⟨p - pos, by rw [List.drop_drop]; congr 1; omega⟩
 
+theorem recoverExtent_after (file : Bytes) (start : Nat) (ext : StreamExt)
+    (h : recoverExtent file start = .ok ext) : start ≤ ext.after := by
+  unfold recoverExtent at h
+  split at h
+  · cases h
+  · cases h; simp only []; omega
+
 theorem readStreamData_after (file : Bytes) (p : Nat) (declared : Option Nat) (ext : StreamExt)
     (h : readStreamData file p declared = .ok ext) : p ≤ ext.after := by
   unfold readStreamData at h
-  repeat' (first | (cases h; done) | split at h | simp only [] at h)
+  repeat' (first | (cases h; done) | (have := recoverExtent_after _ _ _ h; omega) | split at h | simp only [] at h)
   all_goals first
     | (cases h; simp only []; omega)
     | skip
@@ -850,8 +857,12 @@ theorem locLoop_mono (file : Bytes) : ∀ (fuel : Nat) (w : Win) (s : LocState) 
     · cases h; exact ⟨fun fo hfo => hfo, hw⟩
     · cases h
     · rename_i w' pos len lead m hfind
-      obtain ⟨h1, h2⟩ := ih _ _ _ _ (wf_locStep s (pos + lead) m hw) h
-      exact ⟨fun fo hfo => h1 fo (mem_locStep s (pos + lead) m hw fo hfo), h2⟩
+      by_cases hl : lineInitial file pos lead = true
+      · simp only [hl, if_true] at h
+        obtain ⟨h1, h2⟩ := ih _ _ _ _ (wf_locStep s (pos + lead) m hw) h
+        exact ⟨fun fo hfo => h1 fo (mem_locStep s (pos + lead) m hw fo hfo), h2⟩
+      · simp only [hl, if_false] at h
+        exact ih _ _ _ _ hw h
 
 /-- one step of the real loop when the whole rest of the input is in the window -/
 theorem locLoop_step_single (pre q : Bytes) (num gen : Nat) (tail : Bytes) (hq : Quiet q)
@@ -886,7 +897,8 @@ theorem locLoop_step_single (pre q : Bytes) (num gen : Nat) (tail : Bytes) (hq :
     rw [hf, hhit]
     have hlen : (hdr7 num gen).length = (FIO.decOf num).length + 1 + (FIO.decOf gen).length + 1 + 3 := by
       simp [hdr7, headerBytes, kwObj]; omega
-    simp only [ht, ha, hb, List.length_cons, List.length_nil, Nat.zero_add]
+    have hli : ∀ x, lineInitial file x 1 = true := by intro x; simp [lineInitial]
+    simp only [ht, ha, hb, List.length_cons, List.length_nil, Nat.zero_add, hli, if_true]
     congr 2 <;> omega
 
 theorem window_lists : ∀ (os : List (Nat × Nat × Bytes)) (pre q rest : Bytes) (fuel : Nat) (s sfin : LocState) (wfin : Win),
